@@ -62,7 +62,7 @@ def record(seed, ntraces, nev):
             r = rnd.random()
             k = rnd.randrange(len(keys))
             a = rnd.choice(AMOUNTS)
-            ev = {"op": "add", "k": k + 1, "a": num(a), "ret": num(0), "cells": [], "total": num(0), "other": {"cells": [], "total": num(0)}, "raised": False, "rt": True,
+            ev = {"op": "add", "k": k + 1, "a": num(a), "ret": num(0), "cells": [], "total": num(0), "other": {"cells": [], "total": num(0)}, "raised": False, "rt": True, "other_same": True,
                   "amount": a, "key": keys[k]}
             try:
                 if r < 0.55 or (kind == "cbloom" and r < 0.85 and outst[keys[k]] == 0):
@@ -84,8 +84,23 @@ def record(seed, ntraces, nev):
                         aa = rnd.choice(AMOUNTS[:11])
                         (other.add if rnd.random() < 0.6 else other.remove)(keys[kk], aa)
                     ev["other"] = {"cells": [num(c) for c in cells_of(other)], "total": num(other.elements_added)}
+                    b_other = bytes(other)
                     obj.join(other)
+                    ev["other_same"] = bytes(other) == b_other
                     ret = 0
+                elif r < 0.95 and kind == "cbloom":
+                    ev["op"] = "union"
+                    ev["k"] = 0
+                    other = mk()
+                    for _ in range(rnd.randint(1, 3)):
+                        other.add(keys[rnd.randrange(len(keys))], rnd.choice(AMOUNTS[:11]))
+                    ev["other"] = {"cells": [num(c) for c in cells_of(other)], "total": num(other.elements_added)}
+                    b_self, b_other = bytes(obj), bytes(other)
+                    res = obj.union(other) if rnd.random() < 0.5 else other.union(obj)
+                    ev["other_same"] = bytes(other) == b_other and bytes(obj) == b_self
+                    ev.update(ret=num(0), cells=[num(c) for c in cells_of(res)], total=num(obj.elements_added))
+                    tr["ev"].append(ev)
+                    continue
                 else:
                     ev["op"] = "clear"
                     ev["k"] = 0
@@ -114,7 +129,7 @@ def record(seed, ntraces, nev):
 
 def validate(traces, timeout=1200):
     slim = [{"id": tr["id"], "kind": tr["kind"], "w": tr["w"], "d": tr["d"], "pos": tr["pos"],
-             "ev": [{k: e[k] for k in ("op", "k", "a", "ret", "cells", "total", "other", "raised", "rt")} for e in tr["ev"]]} for tr in traces]
+             "ev": [{k: e[k] for k in ("op", "k", "a", "ret", "cells", "total", "other", "raised", "rt", "other_same")} for e in tr["ev"]]} for tr in traces]
     verdicts = {}
 
     def on_json(j):
@@ -154,10 +169,12 @@ def run(focus, tier, seed):
                 tot = (-1 if e["total"]["neg"] else 1) * sum(m * B**j for j, m in enumerate(e["total"]["mag"]))
                 if any(v in lim for v in vals) or tot in lim:
                     total.nontriv(hash((tid, i)))
-            for c in ("C16.returns", "C16.pinned_value", "C16.no_half_update", "C16.total_pinned", "C16.exportable"):
+            for c in ("C12.cells", "C13.operands_unchanged", "C19.operand_unchanged"):
+                total.ok(c.split(".")[0], c + ".real_limits", sum(1 for e in tr["ev"] if e["op"] in ("union", "join")))
+            for c in ("C16.returns", "C16.pinned_value", "C16.no_half_update", "C16.total_pinned", "C16.exportable", "C16.union_clamped", "C16.operand_unchanged"):
                 total.ok("C16", c + ".real_limits", len(tr["ev"]))
             for clause, idx in fails:
-                total.fail("C16", clause + ".real_limits", ENGINE,
+                total.fail(clause.split(".")[0], clause + ".real_limits", ENGINE,
                            {"trace": {k: tr[k] for k in ("kind", "w", "d", "pos", "table")}, "events": [{k: e.get(k) for k in ("op", "key", "amount", "error", "raised", "rt")} for e in tr["ev"][:idx]]},
                            {"kind": tr["kind"], "op": tr["ev"][idx - 1]["op"]})
     total.sample({"kind": traces[0]["kind"], "events": [{k: e.get(k) for k in ("op", "key", "amount")} for e in traces[0]["ev"][:5]]})
